@@ -202,7 +202,9 @@ class Gen:
             self.scopes.append({})
             body = []
             if vpt is not None:
-                self.declare(b, vpt, False)
+                if t[0] == "opt":
+                    self.declare(b, vpt, False)     # (an enum arm's argument has the variant's nominal type:
+                                                    # generated expressions must not use it as a plain value)
                 if vpt[0] == "int":
                     # the argument of an enum arm has the variant's own (nominal) type: cast it
                     body.append({"s": "print", "ty": vpt, "x": {"e": "cast", "ty": jty(vpt), "x": {"e": "var", "n": b, "ty": vpt}}
